@@ -90,6 +90,12 @@ def audio_files(scratch):
     return res
 
 
+# size limits of the model evaluation in the driver (the model's per-link state is a function / an association
+# list: quadratic in the number of updates); larger lattices are still judged by the verified checker and by the
+# python oracles, and are counted in the evidence
+MAX_LINKS_MODEL = 1500
+MAX_LINKS_INT = 450
+
 BEAMS = {"default": [], "narrow": ["beam=1e-20", "wbeam=1e-10", "pbeam=1e-20"],
          "vnarrow": ["beam=1e-8", "wbeam=1e-4", "pbeam=1e-8"], "wide": ["beam=1e-80", "wbeam=1e-60", "pbeam=1e-80"]}
 
@@ -267,10 +273,11 @@ def driver_block(d, k, with_build=True):
         sil = [tab[v[0]] for v in d["fsgW"].values() if v[3]]
         lines.append(f"b {d['frame']} {tab['<s>']} {tab['</s>']} {sil[0] if sil else 999999} {d['Y']['silpen']} {d['Y']['fillpen']} "
                      + " ".join(str(x) for x in fillers))
-    if not d["null"] and d.get("R") and all(r.get("scaled") is not None for r in d["R"].values()) and len(d["R"]) == len(d["links"]):
+    if not d["null"] and d.get("R") and all(r.get("scaled") is not None for r in d["R"].values()) and len(d["R"]) == len(d["links"]) \
+            and len(d["links"]) <= MAX_LINKS_INT:
         lines.append("c " + " ".join(str(d["R"][j]["scaled"]) for j in range(len(d["links"]))))
         lines.append("e " + " ".join(str(j) for j in d["entries"].get(d["G"]["end"], [])))
-    lines.append(f"run {k}")
+    lines.append(f"run {k}" if d["null"] or len(d["links"]) <= MAX_LINKS_MODEL else f"runlight {k}")
     return lines, tab
 
 
@@ -297,6 +304,7 @@ def parse_driver(out):
                 cur["fb_path"] = [int(t) for t in w[3:]]
         elif w[0] == "traverse":
             cur["traverse"] = None if (len(w) > 1 and w[1] == "skipped") else [int(t) for t in w[1:]]
+            cur["skipped"] = len(w) > 1 and w[1] == "skipped"
         elif w[0] == "best":
             cur["best"] = None if w[1] == "none" else dict(link=int(w[1]), score=int(w[2]), chain=[int(t) for t in w[3:]])
         elif w[0] == "rem":
@@ -594,7 +602,7 @@ def check(c):
     c.trusted += ["harness/h_c11.c (dump of lattice/FSG/history through the public iterators and headers) + tools/props/c11.py "
                   "(generator, word interning, canonicalisation, diff)",
                   "clang ASan/UBSan/LSan as observer of memory errors in fsg_search.c / ps_lattice.c (any report fails the run)",
-                  "the untrusted first-best path search (findSegPath) is cross-checked by an independent python search; a found path is validated by the verified checkFirstBest"]
+                  "the first-best path search of the driver is verified sound and complete (C11_first_best_decided); an independent python search cross-checks it"]
     c.assumptions += ["the property is stated for requests that return a lattice; decoder_lattice returns NULL when the history has no word exit (observed: only then)",
                       "time consistency between word nodes is `link ef = t, target sf = t+1, source sf <= t, fef <= t <= lef`; the synthetic <s>/</s> nodes are markers "
                       "(<s> at frame 0 linked to the word nodes starting at 0 with ef 0; links into </s> carry ef = n_frames) — DESIGN §4/C11",
